@@ -59,4 +59,67 @@ Corollary comb_count_zero N r d A :
   0 < d -> 0 <= r < d -> 0 <= A -> A <= Z.of_nat N * d ->
   cnt (fun m => (A <=? r + m * d) && (r + m * d <? A)) N = 0.
 Proof. intros. rewrite comb_count by lia. lia. Qed.
-Print Assumptions comb_count_bounds.
+
+(* ---------- counting helpers ---------- *)
+Lemma cnt_app P a b : cnt P (a + b) = cnt P a + cnt (fun m => P (Z.of_nat a + m)) b.
+Proof.
+  induction b as [|b IH]; cbn [cnt].
+  - rewrite Nat.add_0_r. lia.
+  - rewrite Nat.add_succ_r. cbn [cnt]. rewrite IH. rewrite Nat2Z.inj_add. lia.
+Qed.
+
+(* rotation: k |-> (q + k) mod N is a bijection of [0,N) *)
+Lemma cnt_rot_ab (R : Z -> bool) (a b : nat) :
+  cnt (fun k => R ((Z.of_nat b + k) mod Z.of_nat (a + b))) (a + b) = cnt R (a + b).
+Proof.
+  rewrite (cnt_app (fun k => R ((Z.of_nat b + k) mod Z.of_nat (a + b))) a b).
+  rewrite (cnt_ext (fun k => R ((Z.of_nat b + k) mod Z.of_nat (a + b))) (fun k => R (Z.of_nat b + k)) a).
+  2:{ intros m Hm. f_equal. apply Z.mod_small. lia. }
+  rewrite (cnt_ext (fun m => R ((Z.of_nat b + (Z.of_nat a + m)) mod Z.of_nat (a + b))) R b).
+  2:{ intros m Hm. f_equal.
+      replace (Z.of_nat b + (Z.of_nat a + m)) with (m + 1 * Z.of_nat (a + b)) by lia.
+      rewrite Z.mod_add by lia. apply Z.mod_small. lia. }
+  rewrite (Nat.add_comm a b). rewrite (cnt_app R b a). lia.
+Qed.
+
+Lemma cnt_rot (R : Z -> bool) (N : nat) (q : Z) : 0 <= q < Z.of_nat N ->
+  cnt (fun k => R ((q + k) mod Z.of_nat N)) N = cnt R N.
+Proof.
+  intros Hq.
+  assert (Hb : q = Z.of_nat (Z.to_nat q)) by lia.
+  assert (HN : N = ((N - Z.to_nat q) + Z.to_nat q)%nat) by lia.
+  revert Hb HN. generalize (N - Z.to_nat q)%nat as a. generalize (Z.to_nat q) as b.
+  intros b a Hb HN. subst q N. apply cnt_rot_ab.
+Qed.
+
+(* comb points of the code, scaled to integers:  (c + k*d) mod (N*d) = r + ((q + k) mod N) * d *)
+Lemma comb_point c d N k : 0 < d -> 0 < N -> 0 <= c ->
+  (c + k * d) mod (N * d) = c mod d + (((c / d) mod N + k) mod N) * d.
+Proof.
+  intros Hd HN Hc.
+  pose proof (Z.div_mod c d ltac:(lia)) as E. pose proof (Z.mod_pos_bound c d Hd) as B.
+  set (q := c / d) in *. set (r := c mod d) in *.
+  replace (c + k * d) with (r + (q + k) * d) by lia.
+  pose proof (Z.div_mod (q + k) N ltac:(lia)) as E2. pose proof (Z.mod_pos_bound (q + k) N HN) as B2.
+  set (t := (q + k) mod N) in *. set (s := (q + k) / N) in *.
+  replace (r + (q + k) * d) with ((r + t * d) + s * (N * d)) by nia.
+  rewrite Z.mod_add by nia.
+  rewrite Z.mod_small by nia.
+  f_equal. f_equal. subst t. rewrite Zplus_mod_idemp_l. reflexivity.
+Qed.
+
+(* Main: the number of comb points (as the code computes them) in [A,B) *)
+Theorem branch_count (N : nat) c d A B :
+  0 < d -> (0 < N)%nat -> 0 <= c -> 0 <= A <= B -> B <= Z.of_nat N * d ->
+  cnt (fun k => let x := (c + k * d) mod (Z.of_nat N * d) in (A <=? x) && (x <? B)) N
+  = cdiv (B - c mod d) d - cdiv (A - c mod d) d.
+Proof.
+  intros Hd HN Hc HA HB. cbv zeta.
+  set (r := c mod d). set (q := (c / d) mod Z.of_nat N).
+  rewrite (cnt_ext _ (fun k => (fun m => (A <=? r + m * d) && (r + m * d <? B)) ((q + k) mod Z.of_nat N))).
+  2:{ intros m Hm. cbv beta. rewrite comb_point by lia. reflexivity. }
+  rewrite (cnt_rot (fun m => (A <=? r + m * d) && (r + m * d <? B)) N q).
+  2:{ subst q. apply Z.mod_pos_bound. lia. }
+  apply comb_count; try lia. subst r. apply Z.mod_pos_bound. lia.
+Qed.
+Print Assumptions branch_count.
